@@ -270,7 +270,12 @@ impl<L: Localize> OpeningHours<L> {
     /// assert_eq!(oh.state(date_2), RuleKind::Unknown);
     /// ```
     pub fn state(&self, current_time: L::DateTime) -> RuleKind {
-        self.iter_range(current_time.clone(), current_time + Duration::minutes(1))
+        // The one-minute window is built on local time: when the clock is set
+        // back during that minute, its end in absolute time comes before its
+        // start in local time, which resulted in an empty (closed) window.
+        let from = std::cmp::min(DATE_END, self.ctx.locale.naive(current_time));
+
+        self.iter_range_naive(from, from + Duration::minutes(1))
             .next()
             .map(|dtr| dtr.kind)
             .unwrap_or(RuleKind::Closed)
